@@ -297,7 +297,7 @@ def hmac_functions(p, crate="passkey_authenticator"):
     for b in p.all_bodies:
         if b.crate != crate or b.path != b.root or b.def_kind not in ("Fn", "AssocFn"):
             continue
-        if any(names.call_is(t, "crypto::hmac_sha256") or names.call_is(t, "hmac_sha256") for nb in p.nested(b.path) for _bb, t in nb.calls()):
+        if any(names.call_is(t, "crypto::hmac_sha256") or names.call_is(t, "hmac_sha256") for nb in p.nested_of(b) for _bb, t in nb.calls()):
             out.append(b)
     return out
 
